@@ -68,7 +68,8 @@ def _case(draw, tier):
             # (an(entity(p, f))), built before or after the concatenation and evaluated (to the end / given up after one
             # result / not at all) before the concatenation is
             "shared_with_condition_query": draw(st.sampled_from([None, None, None, {"built": "before"}, {"built": "after"}])),
-            "condition_query_run": draw(st.sampled_from(["full", "full", 1, None]))}
+            "condition_query_run": draw(st.sampled_from(["full", "full", 1, None])),
+            "abandon_first": draw(st.sampled_from([0, 0, 1, 2]))}
 
 
 def strategy(tier):
@@ -202,31 +203,52 @@ def check(case) -> Outcome:
                 q = an(entity(d, cond))
             else:
                 q = an(set_of([d, c], cond))          # the outer variable together with the concatenated value
-        if case.get("select_form", "entity") == "entity":
-            got = [(r,) for r in q.evaluate()]
-        else:
-            got = []
-            for r in q.evaluate():
-                if combo != "parent_cond_first" and (not isinstance(r[c], (list, tuple)) or [ident((x,)) for x in r[c]] != ids):
-                    return fail("wrong_concatenation_in_row", f"set_of([d, concatenate(...)], ...) row for {r[d]!r} carries "
-                                                              f"{r[c]!r}; expected {flat!r}", nontrivial=nontrivial,
-                                classes=classes, features=feats)
-                got.append((r[d],))
     except Exception as e:
-        return fail("exception_membership", f"{type(e).__name__}: {e}", nontrivial=nontrivial, classes=classes,
+        return fail("exception_membership", f"building: {type(e).__name__}: {e}", nontrivial=nontrivial, classes=classes,
                     features=feats)
-    if snapshot(objs) != before:
-        return fail("user_data_modified", "evaluating the membership query changed an attribute (or an inner collection) "
-                                          "of a dataset object", nontrivial=nontrivial, classes=classes, features=feats)
     want = [(o,) for o in outer if holds(o)]
-    # (with the parent bound first the parent is a hidden variable of the result: one row per qualifying parent, in parent
-    # order - compared as a set, like any projection)
-    bad = compare_lists(want, got) if combo != "parent_cond_first" else compare_sets(want, got, False)
-    if bad:
-        return fail("membership_" + bad[0], f"{'not ' if case['negate'] else ''}{case['form']}(d{'' if ot == 'var' else '.' + ot}, "
-                                            f"concatenate(p.{case['inner']})) with flat list {flat}: {bad[1]}",
-                    nontrivial=nontrivial, classes=classes, features=feats)
+    # the same membership query is evaluated three times, optionally after an evaluation that was given up after k results
+    if case.get("abandon_first"):
+        classes.append("membership_after_abandoned_evaluation")
+        try:
+            it_ = q.evaluate()
+            for _ in range(case["abandon_first"]):
+                if next(it_, _END) is _END:
+                    break
+            it_.close()
+        except Exception as e:
+            return fail("exception_membership", f"abandoned evaluation: {type(e).__name__}: {e}", nontrivial=nontrivial,
+                        classes=classes, features=feats)
+    for attempt in (1, 2, 3):
+        try:
+            if case.get("select_form", "entity") == "entity":
+                got = [(r,) for r in q.evaluate()]
+            else:
+                got = []
+                for r in q.evaluate():
+                    if combo != "parent_cond_first" and (not isinstance(r[c], (list, tuple)) or [ident((x,)) for x in r[c]] != ids):
+                        return fail("wrong_concatenation_in_row", f"evaluation {attempt}: set_of([d, concatenate(...)], ...) row "
+                                                                  f"for {r[d]!r} carries {r[c]!r}; expected {flat!r}",
+                                    nontrivial=nontrivial, classes=classes, features=feats)
+                    got.append((r[d],))
+        except Exception as e:
+            return fail("exception_membership", f"evaluation {attempt}: {type(e).__name__}: {e}", nontrivial=nontrivial,
+                        classes=classes, features=feats + [f"evaluation{attempt}"])
+        if snapshot(objs) != before:
+            return fail("user_data_modified", "evaluating the membership query changed an attribute (or an inner collection) "
+                                              "of a dataset object", nontrivial=nontrivial, classes=classes, features=feats)
+        # (with the parent bound first the parent is a hidden variable of the result: one row per qualifying parent, in
+        # parent order - compared as a set, like any projection)
+        bad = compare_lists(want, got) if combo != "parent_cond_first" else compare_sets(want, got, False)
+        if bad:
+            return fail(("membership_" if attempt == 1 else "reevaluation_membership_") + bad[0],
+                        f"evaluation {attempt}: {'not ' if case['negate'] else ''}{case['form']}(d{'' if ot == 'var' else '.' + ot}, "
+                        f"concatenate(p.{case['inner']})) with flat list {flat}: {bad[1]}",
+                        nontrivial=nontrivial, classes=classes, features=feats + [f"evaluation{attempt}"])
     return Outcome(True, nontrivial=nontrivial, classes=classes, features=feats)
+
+
+_END = object()
 
 
 def render(case):
